@@ -177,6 +177,19 @@ CHECKS["C17"] = (
     "DESIGN.md section 3 / C17",
 )
 
+CHECKS["C11"] = (
+    "Hypothesis class-definition programs (annotation grammar to depth 3, inheritance chains, plain and postponed emission) exec-ed and compared with a reference classification",
+    "Seeded Hypothesis search over generated class definitions: chains of 1-3 node classes with annotations "
+    "from the whole type grammar (incl. NewType, both union spellings, forward references, containers, "
+    "inherited and overridden fields), each emitted as module source twice (plain annotations and postponed) "
+    "and exec-ed; the observed verdict per field (InvalidFieldAnnotations at definition or first use with the "
+    "exact field set, or membership in exactly one of the child / property tables, instantiation working) is "
+    "compared with an independent reference classification, and both emissions must agree. Bounded exploration.",
+    "Trusts Hypothesis and the reference classification in pbt/classfactory.py; annotations that Python or "
+    "mashumaro refuse outright are discarded (counted); a union nested through a NewType may be child or rejected.",
+    "DESIGN.md section 3 / C11",
+)
+
 NOT_YET = "check not built yet in this snapshot (see DESIGN.md section 9 build order); nothing is claimed"
 
 
